@@ -11,6 +11,7 @@
 #include <set>
 #include <deque>
 #include <algorithm>
+#include <tuple>
 
 extern "C" {
 #include <module/mod.h>
@@ -144,6 +145,18 @@ struct Slot {
     int pills_pending = 0;
     bool pill_effective_seen = false;
     uint64_t userdata_id = 0;
+    int ctx_gen = 0;                  // which context registration this module belongs to
+    int prev_st = ST_NONE;            // state before the last observed edge
+    uint64_t st_boundary = 0;         // boundary at which the last edge was observed
+    uint64_t idle_since_gseq = 0;
+    uint64_t eval_changed_gseq = 0;
+    bool start_refused_pending = false;
+    std::vector<uint64_t> oneshot_fired;
+    uint64_t c08_last_send_gseq = 0;
+    long c08_last_send_id = -1;
+    uint64_t c08_pill_gseq = 0, c08_pill_effect_gseq = 0, c08_last_reset_gseq = 0;
+    uint64_t pending_pill_first_gseq = 0;
+    std::set<std::tuple<int, long, long>> c09_model;
     // mirrors
     std::map<std::string, SubM> subs;
     std::vector<SrcM> srcs;
@@ -155,7 +168,8 @@ struct Slot {
     uint32_t tb_rate = 0;
     uint64_t tb_burst = 0;
     bool registered() const { return st != ST_NONE && st != ST_ZOMBIE; }
-    m_mod_t *handle() const { return h ? h : keep; }
+    m_mod_t *raw = nullptr;    // the module's address (valid to use only while the harness holds some reference)
+    m_mod_t *handle() const { return h ? h : keep ? keep : (user_refs > 0 ? raw : nullptr); }
 };
 
 struct LoopRun {
@@ -171,6 +185,8 @@ struct LoopRun {
 };
 
 struct RetainedEvt { const m_evt_t *raw; EvtObs first; int slot; bool released = false; };
+
+struct AutoReg { int fd; uint64_t file_id; int slot; uint64_t ud; bool closed = false; bool removed = false; uint64_t close_gseq = 0; };
 
 struct ApiRec { std::string name; int slot; int rc; int st_before; int st_after; uint64_t gseq; bool in_cb; };
 
@@ -189,7 +205,7 @@ struct World {
     int ctx_registrations = 0;
     std::vector<LoopRun> loops;
     // modules
-    std::vector<Slot> slots;
+    std::deque<Slot> slots;   // deque: references stay valid while callbacks register further modules
     std::map<const void *, int> mod2slot;
     // frames
     std::vector<Frame> frames;
@@ -197,9 +213,9 @@ struct World {
     std::vector<std::pair<int, int>> ufds;   // user pipes: (read fd, write fd); eventfd: (fd, -1)
     std::vector<bool> ufd_closed_by_lib_ok;  // registered with AUTOCLOSE at least once
     // messaging
-    std::vector<SendRec> sends;
+    std::deque<SendRec> sends;
     std::map<const void *, long> payload2send;
-    std::vector<Delivery> deliveries;
+    std::deque<Delivery> deliveries;
     std::vector<RetainedEvt> retained;
     std::vector<ApiRec> apis;
     // userdata ids
@@ -221,6 +237,10 @@ struct World {
     bool nontrivial = false;
     int teardown_style = 0;
     bool keep_refs = true;
+    uint64_t boundary_id = 0;
+    bool c07_looping_at_entry = false;
+    std::map<int, int> c07_active_before;
+    std::vector<AutoReg> autoclose_regs;
 };
 extern World *W;
 
@@ -252,6 +272,10 @@ void orc_quiescent();
 void orc_loop_end(LoopRun &lr);
 void orc_run_end();
 std::string snapshot();
+void orc_c08_edge(int slot, int from, int to);
+void c09_check_counts(int slot, const char *after);
+void c09_register(int slot, int type, long k1, long k2, bool params_valid, int rc, bool update_in_place_ok, const std::string &snap0);
+void c09_deregister(int slot, int type, long k1, long k2, int rc, const std::string &snap0);
 
 // ---- gen.cc
 Program gen_core(const std::string &campaign, uint64_t seed, bool thorough);
